@@ -195,6 +195,60 @@ impl World {
         Ok(())
     }
 
+    /// export the stage and replay it after further edits / after discarding and other edits / after commit
+    pub fn op_replay_onto(&mut self, i: usize, mode: u8, edit: &[crate::gen::EditStep]) -> R<()> {
+        if !guard("has_staging", || self.reps[i].m.has_staging())? {
+            self.op_update(i, edit)?;
+        }
+        let s1 = match guard("stage", || self.reps[i].m.stage())? {
+            Ok(Some(s)) => Some(s),
+            _ => return Ok(()),
+        };
+        let lbl: &'static str = if self.is("C15") { "C15" } else if self.is("C04") { "C04" } else if self.is("C12") { "C12" } else { "" };
+        self.log.push(format!("r{} replay-onto mode {} of {}", i, mode % 3, canon_stage(&s1)));
+        match mode % 3 {
+            0 => self.op_update(i, edit)?,
+            1 => {
+                self.op_unstage(i)?;
+                self.op_update(i, edit)?;
+            }
+            _ => {
+                self.op_commit(i, None)?;
+                if guard("has_staging", || self.reps[i].m.has_staging())? {
+                    // the commit did not go through (e.g. refused): nothing to learn here
+                    return Ok(());
+                }
+            }
+        }
+        let before = obs_full(&self.reps[i].m)?;
+        let r = guard("replay_stage", || self.reps[i].m.replay_stage(&s1))?;
+        self.log.push(format!("   replay -> {:?}", r.as_ref().map_err(|e| e.to_string())));
+        self.bump("replays_onto");
+        if mode % 3 == 2 {
+            // everything in the export is committed already: replaying it changes nothing and stages nothing
+            let after = obs_full(&self.reps[i].m)?;
+            let staged = guard("has_staging", || self.reps[i].m.has_staging())?;
+            if !lbl.is_empty() {
+                if staged {
+                    return viol(lbl, "replaying an export whose changes are all committed already left the replica with staged changes (nothing changed, yet a commit would be written)".into());
+                }
+                if before != after {
+                    return viol(lbl, format!("replaying an export whose changes are all committed already changed the replica: {}", first_diff_full(&before, &after)));
+                }
+            }
+            self.bump("replays_after_commit");
+        } else if r.is_ok() {
+            // replaying the same export a second time changes nothing
+            let once = obs_full(&self.reps[i].m)?;
+            let r2 = guard("replay_stage", || self.reps[i].m.replay_stage(&s1))?;
+            let twice = obs_full(&self.reps[i].m)?;
+            if !lbl.is_empty() && (r2.is_err() || once != twice) {
+                return viol(lbl, format!("replaying the same export a second time is not idempotent ({:?}): {}", r2.map_err(|e| e.to_string()), first_diff_full(&once, &twice)));
+            }
+        }
+        Ok(())
+    }
+
     pub fn op_stage_roundtrip(&mut self, i: usize) -> R<()> {
         if !guard("has_staging", || self.reps[i].m.has_staging())? {
             self.bump("stagert_noop");
@@ -216,6 +270,15 @@ impl World {
         let mid = obs_full(&self.reps[i].m)?;
         let r = guard("replay_stage", || self.reps[i].m.replay_stage(&s1))?;
         self.bump("stage_roundtrips");
+        if self.is("C07") {
+            // a resolution that was staged, exported, discarded and replayed is still a resolution: the
+            // objects it took out of the conflict set stay out, and the chosen revisions stay the winners
+            let o2 = obs_full(&self.reps[i].m)?;
+            if r.is_ok() && (o1.core.conflicts != o2.core.conflicts || o1.core.winners != o2.core.winners) {
+                return viol("C07", format!("a staged resolution did not survive export / discard / replay: {}", first_diff(&o1.core, &o2.core)));
+            }
+            self.bump("c07_stage_roundtrips");
+        }
         if self.is("C15") {
             if let Err(e) = r {
                 return viol("C15", format!("replaying an exported stage failed: {}", e));
@@ -249,6 +312,23 @@ impl World {
         let res = guard("stage_full_snapshot", || self.reps[i].m.stage_full_snapshot())?;
         self.log.push(format!("r{} stage_full_snapshot -> {:?}", i, res.as_ref().map_err(|e| e.to_string())));
         self.bump("snapshots");
+        if self.is("C06") || self.is("C16") {
+            let lbl: &'static str = if self.is("C16") { "C16" } else { "C06" };
+            // a full snapshot is not an edit: the concurrent versions are what they were, so the merged arrays
+            // must still hold every element they held (nothing lost, nothing duplicated, same order)
+            let post = read_doc(&self.reps[i].m)?;
+            if let (Ok(a), Ok(b)) = (&pre, &post) {
+                let (mut x, mut y) = (vec![], vec![]);
+                model::doc_arrays(a, &mut vec![], &mut x);
+                model::doc_arrays(b, &mut vec![], &mut y);
+                if x != y {
+                    return viol(lbl, format!("taking a full snapshot (re-encoding the edit scripts as full arrays) changed the arrays the replica reconstructs:\n before {:?}\n after  {:?}", x, y));
+                }
+                if arrconf {
+                    self.bump("c06_snapshots_with_array_conflict");
+                }
+            }
+        }
         if self.is("C12") {
             let post = read_doc(&self.reps[i].m)?;
             if pre != post {
